@@ -11,6 +11,7 @@ EXPLANATION = (
     "declared type; (F6-to_v1) the pre-1.0 -> 1.0.0 upgrade keeps each line's kind (target class is a subclass of the "
     "guard class) and covers every v0 parser class; (F6-parsers) every parsable class is reachable from its version's "
     "parser list, entries distinct; (GATE) version gates present."
+    ' (F1-obs) operators, comparisons, string forms, property getters and from_instance of the line and parameter classes do not mutate their operands (ownership analysis).'
     ' (F10-conv) conversion to 1.0.0 rounds every field that a pre-1.0 version stores as float before int().'
 )
 NOT_DECIDED = [
@@ -27,4 +28,7 @@ def run(ctx):
     ML.rule_version_gates(ctx)
     X.rule_fraction_str(ctx)
     X.rule_from_instance_rounding(ctx)
+    from ..rules import ownership as OW
+    OW.rule_observers_pure(ctx, ["partitura.io.matchfile_utils", "partitura.io.matchfile_base", "partitura.io.matchlines_v0",
+                                 "partitura.io.matchlines_v1"], "match line and parameter classes", extra_names=("from_instance", "check_types", "_str"), floor=20)
     G.rule_F8a(ctx, ["partitura.io.importmatch:parse_matchline", "partitura.io.matchlines_v1:to_v1"], "match lines")
